@@ -148,7 +148,7 @@ def main():
         "engines": [
             {"name": "E1-rust-harness", "path": "/verif/harness",
              "serves_properties": [p for p in ALL if p in CHECKS and CHECKS[p].get("engine", "E1-rust-harness") == "E1-rust-harness"],
-             "kind_free_text": "Rust crate linked against /repo (path dependency, rebuilt on every invocation), proptest 1.11 TestRunner with fixed seeds and shrinking, exact rational oracles, f64 and fpdec builds, each with debug assertions / overflow checks / std on and off"},
+             "kind_free_text": "Rust crate linked against /repo (path dependency, rebuilt on every invocation), proptest 1.11 TestRunner with fixed seeds and shrinking, exact rational oracles, f64 and fpdec builds, each with debug assertions / overflow checks / std on and off; the thorough tier adds an f64 build with every feature of the host CPU enabled"},
             {"name": "E2-progen", "path": "/verif/progen",
              "serves_properties": [p for p in ALL if p in CHECKS and CHECKS[p].get("engine") == "E2-progen"],
              "kind_free_text": "Python/Hypothesis generator of Rust programs compiled against /repo with cargo; rustc verdicts and program output compared with a model"},
